@@ -91,6 +91,16 @@ def _job(args):
     kind, name, tasks, bulks, cancels, ncores, arg = args
     from ..rigs import pipeline_rig as P
     out = []
+    if kind == 'lossy':
+        seed, n = arg
+        rng = random.Random(seed)
+        for i in range(n):
+            s = rng.randrange(10 ** 9)
+            rig = P.PipelineRig(P.Scenario(tasks, bulks, cancels, ncores, lossy=True))
+            tr = rig.run(P.randomised(random.Random(s)))
+            tr['how'] = {'kind': 'lossy', 'seed': s}
+            out.append(tr)
+        return name, out
     if kind == 'script':
         for i, sc in enumerate(arg):
             rig = P.PipelineRig(P.Scenario(tasks, bulks, cancels, ncores))
@@ -165,6 +175,9 @@ def run(chk, tier, seed):
             shutil.rmtree(dump, ignore_errors=True)
         jobs.append(('random', name, tasks, bulks, cancels, ncores,
                      (rng.randrange(10 ** 9), 25 if quick else 400)))
+        # runs in which non-final state notifications get lost on the way to the client
+        jobs.append(('lossy', name, tasks, bulks, cancels, ncores,
+                     (rng.randrange(10 ** 9), 10 if quick else 150)))
 
     pool = mp.get_context('fork').Pool(14)
     try:
@@ -224,7 +237,11 @@ def replay(chk, obj):
     sc = obj['scenario']
     rig = P.PipelineRig(P.Scenario(sc['tasks'], sc['bulks'], sc['cancels'], sc['ncores']))
     how = obj['how']
-    if how['kind'] == 'random':
+    if how['kind'] == 'lossy':
+        rig.cleanup()
+        rig = P.PipelineRig(P.Scenario(sc['tasks'], sc['bulks'], sc['cancels'], sc['ncores'], lossy=True))
+        tr = rig.run(P.randomised(random.Random(how['seed'])))
+    elif how['kind'] == 'random':
         tr = rig.run(P.randomised(random.Random(how['seed'])))
     else:
         tr = rig.run(P.scripted(how['script'], random.Random(how['fallback_seed'])))
